@@ -63,6 +63,9 @@ def plan(tier, seed):
     for pi in (range(0, 24, 4) if tier == "quick" else range(24)):
         for li in range(3):
             shards.append(("learn", "scripted", pi, li, 3 if tier == "quick" else 4))
+    # accuracies that differ by less than the stopping tolerance (1e-4) are still different accuracies
+    for pi in (0, 8, 16):
+        shards.append(("learn", "scripted", pi, 0, 3, "near"))
     if tier == "thorough":
         for pi in range(120):
             shards.append(("learn", 4, pi))
@@ -166,8 +169,8 @@ def learn_once(cfg, ch):
     script = cfg.get("acc_script")
     n_acc = [0]
 
-    def acc(labels, preds):
-        a = orig_acc(labels, preds)
+    def acc(labels, preds, *more, **kw):
+        a = orig_acc(labels, preds, *more, **kw)
         if script is not None:
             # the validation accuracy is an environment answer served from the script
             a = float(script[n_acc[0]]) if n_acc[0] < len(script) else float(script[-1])
@@ -248,7 +251,7 @@ def learn_configs(n_train, pi, seed):
                        "Xv": [v * sc for v in xv], "Yv": list(yv), "iters": iters}
 
 
-def scripted_configs(pi, seed, li=None, max_iters=4):
+def scripted_configs(pi, seed, li=None, max_iters=4, alphabet=(0.0, 0.5, 1.0)):
     """every accuracy sequence over {0, 0.5, 1} of length n_iterations (1..4) on configurations
     whose validation samples are misclassified (so that swaps really change the training set)"""
     base = [c for c in learn_configs(3, pi, seed) if c["iters"] == 1 and c["Yv"] == [1, 0]]
@@ -256,7 +259,7 @@ def scripted_configs(pi, seed, li=None, max_iters=4):
         base = base[li:li + 1]
     for cfg in base:
         for iters in range(1, max_iters + 1):
-            for script in itertools.product([0.0, 0.5, 1.0], repeat=iters):
+            for script in itertools.product(list(alphabet), repeat=iters):
                 c2 = dict(cfg)
                 c2["iters"] = iters
                 c2["acc_script"] = list(script)
@@ -265,7 +268,9 @@ def scripted_configs(pi, seed, li=None, max_iters=4):
 
 def shard_learn(shard, seed, res):
     _, n_train, pi = shard[:3]
-    cfgs = scripted_configs(pi, seed, shard[3], shard[4]) if n_train == "scripted" \
+    near = len(shard) > 5 and shard[5] == "near"
+    cfgs = scripted_configs(pi, seed, shard[3], shard[4],
+                            (0.5, 0.5 + 4e-6, 0.5 + 5e-5, 0.7) if near else (0.0, 0.5, 1.0)) if n_train == "scripted" \
         else learn_configs(n_train, pi, seed)
     if n_train == 4 and len(shard) > 3:
         cfgs = [c for c in cfgs if c["iters"] == shard[3]]
